@@ -100,6 +100,29 @@ def v1_log_iterator_eof(ctx):
                 labs = info["arms"].get(e.dst, [])
                 if labs and "Io" not in labs:
                     check_edge_returns(r, b, f, bb, e.dst, "non-I/O decode error (%d variants)" % len(labs), lambda c, o: c == "err", "Err")
+    # guard form: `Io(ioe) if ioe.kind() == io::ErrorKind::UnexpectedEof`
+    for bb in sorted(b.live_blocks()):
+        info = b.switch_info(bb)
+        if not info or info["kind"] != "bool":
+            continue
+        on = peel_var(info["on"])
+        neg = False
+        while on[0] == "un" and on[1] == "Not":
+            on, neg = peel_var(on[2]), not neg
+        if on[0] == "call" and on[1].split("::")[-1] in ("eq", "ne") and len(on[2]) == 2:
+            if on[1].split("::")[-1] == "ne":
+                neg = not neg
+            sides = [peel(x) for x in on[2]]
+            ks = [x for x in sides if x[0] == "call" and x[1].endswith("io::Error::kind") and x[2] and is_err_value(x[2][0])]
+            es = [x for x in sides if x[0] == "agg" and x[3] == "UnexpectedEof"]
+            if ks and es:
+                got_kind = True
+                for e in b.succ[bb]:
+                    lab = info["arms"].get(e.dst)
+                    if lab == [not neg]:
+                        check_edge_returns(r, b, f, bb, e.dst, "io::ErrorKind::UnexpectedEof", is_ok_none, "Ok(None)")
+                    elif lab == [neg]:
+                        check_edge_returns(r, b, f, bb, e.dst, "other io::ErrorKind", lambda c, o: c == "err", "Err")
     if not got_kind:
         r.unrec(f, "test of io::Error::kind() of the decoder's error", short_span(b.span), "no switch on kind() of the Io payload of deserialize_from's error found")
     if not got_outer:
@@ -235,7 +258,7 @@ def v6_write_frame_flushes(ctx):
     fam = ctx.prog.family("net::connection::Connection::write_frame")
     b = None
     for x in fam:
-        if calls_in([x], "net::connection::Connection::write_single_value"):
+        if calls_in([x], "net::connection::Connection::write_single_value") and b is None:
             b = x
     f = "net::connection::Connection::write_frame"
     if b is None:
@@ -243,6 +266,8 @@ def v6_write_frame_flushes(ctx):
         return r
     r.analysed = [b.path]
     ws = calls_in([b], "net::connection::Connection::write_single_value", "net::connection::Connection::write_array")
+    # an array written in place (write_array inlined by hand): its header writes on the stream
+    ws += [(x_, bb_, t_) for x_, bb_, t_ in calls_in([b], "tokio::io::AsyncWriteExt::write_u8", "tokio::io::AsyncWriteExt::write_all") if (arg_path(b, t_, 0) or "").endswith("self.stream")]
     fl = [(bb, t) for _, bb, t in calls_in([b], "tokio::io::AsyncWriteExt::flush") if (arg_path(b, t, 0) or "").endswith("self.stream")]
     wok = set()
     for _, bb, t in ws:
@@ -300,25 +325,43 @@ def v3_read_frame_eof(ctx):
     f = "net::connection::Connection::read_frame"
     b = None
     for x in fam:
-        if calls_in([x], "net::connection::Connection::parse_frame"):
+        if calls_in([x], "net::connection::Connection::parse_frame") and b is None:
             b = x
     if b is None:
         r.unrec(f, "body calling parse_frame", "src/net/connection.rs", "not found")
         return r
     r.analysed = [b.path]
 
-    def is_zero_test(o):
+    def zero_test(o):
+        """(is a test of the read count against 0, value of the switch operand that means `count == 0`)"""
         o = peel_var(o)
-        if o[0] != "bin" or o[1] not in ("Eq",):
-            return False
-        sides = [o[2], o[3]]
-        z = [s for s in sides if const_int(s) == 0]
-        other = [s for s in sides if const_int(s) != 0]
-        return bool(z) and bool(other) and bool(origin_mentions(other[0], lambda x: x[0] == "call" and x[1] and "read_buf" in x[1]) or origin_mentions(other[0], lambda x: x[0] == "var"))
+        neg = False
+        while o[0] == "un" and o[1] == "Not":
+            o, neg = peel_var(o[2]), not neg
+        if o[0] != "bin" or o[1] not in ("Eq", "Ne", "Gt", "Lt", "Ge", "Le"):
+            return False, None
+        l, r_ = o[2], o[3]
+        from_read = lambda s_: bool(origin_mentions(s_, lambda x: x[0] == "call" and x[1] and "read_buf" in x[1]) or origin_mentions(s_, lambda x: x[0] == "var"))
+        zero_when = None
+        if const_int(r_) == 0 and const_int(l) is None and from_read(l):
+            zero_when = {"Eq": True, "Ne": False, "Gt": False, "Le": True}.get(o[1])
+        elif const_int(l) == 0 and const_int(r_) is None and from_read(r_):
+            zero_when = {"Eq": True, "Ne": False, "Lt": False, "Ge": True}.get(o[1])
+        elif const_int(r_) == 1 and const_int(l) is None and from_read(l):
+            zero_when = {"Lt": True, "Ge": False}.get(o[1])
+        if zero_when is None:
+            return False, None
+        return True, (zero_when != neg)
 
-    def is_empty_test(o):
+    def empty_test(o):
+        """(is a test of self.buffer.is_empty(), value of the operand that means `empty`)"""
         o = peel_var(o)
-        return o[0] == "call" and o[1] and o[1].endswith("is_empty") and (access_path(o[2][0]) or "").endswith("self.buffer")
+        neg = False
+        while o[0] == "un" and o[1] == "Not":
+            o, neg = peel_var(o[2]), not neg
+        if o[0] == "call" and o[1] and o[1].endswith("is_empty") and (access_path(o[2][0]) or "").endswith("self.buffer"):
+            return True, (not neg)
+        return False, None
 
     zero_sw = None
     empty_sw = None
@@ -326,30 +369,31 @@ def v3_read_frame_eof(ctx):
         info = b.switch_info(bb)
         if not info or info["kind"] != "bool":
             continue
-        if is_empty_test(info["on"]):
-            empty_sw = (bb, info)
-        elif is_zero_test(info["on"]):
-            # make sure the compared value comes from the read
-            zero_sw = (bb, info)
+        ise, ev = empty_test(info["on"])
+        isz, zv = zero_test(info["on"])
+        if ise:
+            empty_sw = (bb, info, ev)
+        elif isz:
+            zero_sw = (bb, info, zv)
     if zero_sw is None or empty_sw is None:
         r.unrec(f, "tests `read == 0` and `buffer.is_empty()`", short_span(b.span), "found zero-test=%s empty-test=%s" % (zero_sw is not None, empty_sw is not None))
         return r
-    zbb, zinfo = zero_sw
-    ebb, einfo = empty_sw
-    ztrue = [e for e in b.succ[zbb] if zinfo["arms"].get(e.dst) == [True]]
-    zfalse = [e for e in b.succ[zbb] if zinfo["arms"].get(e.dst) == [False]]
+    zbb, zinfo, zv = zero_sw
+    ebb, einfo, ev = empty_sw
+    ztrue = [e for e in b.succ[zbb] if zinfo["arms"].get(e.dst) == [zv]]
+    zfalse = [e for e in b.succ[zbb] if zinfo["arms"].get(e.dst) == [not zv]]
     # the emptiness test is only on the read==0 edge
     tset = {(e.src, e.dst) for e in ztrue}
     dom = ebb not in reach(b, [0], blocked_edges=lambda e: (e.src, e.dst) in tset)
     r.add(f, "buffer.is_empty() is tested exactly when the read returned 0", dom, where(b, ebb))
     for e in b.succ[ebb]:
         labs = einfo["arms"].get(e.dst)
-        if labs == [True]:
+        if labs == [ev]:
             check_edge_returns(r, b, f, ebb, e.dst, "EOF ∧ buffer empty", is_ok_none, "Ok(None)")
-        elif labs == [False]:
+        elif labs == [not ev]:
             check_edge_returns(r, b, f, ebb, e.dst, "EOF ∧ bytes buffered (inside a frame)", lambda c, o: c == "err", "Err")
     # Ok(None) ("the peer is done") is said nowhere else: a failed read (reset) is not a clean end
-    et = {(e.src, e.dst) for e in b.succ[ebb] if einfo["arms"].get(e.dst) == [True]}
+    et = {(e.src, e.dst) for e in b.succ[ebb] if einfo["arms"].get(e.dst) == [ev]}
     stray = [rb for c, d, rb in ret_classes(b, 0, lambda e: e.kind in ("unwind", "ydrop") or (e.src, e.dst) in et) if is_ok_none(c, ret_origin(b, d))]
     r.add(f, "Ok(None) only for read == 0 with an empty buffer", bool(et) and not stray, where(b, ebb), "" if not stray else "a clean end of stream is reported on another path (e.g. for a read error): a stream cut inside a frame looks like a normal close")
     # each iteration looks at the buffer before reading more: the read is reachable only after parse_frame said "nothing yet"
@@ -452,7 +496,7 @@ def v5_hint_fallback(ctx):
     f = "storage::bitcask::rebuild_storage"
     b = None
     for x in fam:
-        if calls_in([x], "storage::bitcask::populate_keydir_with_hintfile"):
+        if calls_in([x], "storage::bitcask::populate_keydir_with_hintfile") and b is None:
             b = x
     if b is None:
         r.unrec(f, "call populate_keydir_with_hintfile", "src/storage/bitcask.rs", "not found")
@@ -465,7 +509,7 @@ def v5_hint_fallback(ctx):
         return r
     _, hbb, ht = hint[0]
     _, dbb, dt = data[0]
-    same = all(arg_path(b, ht, i) == arg_path(b, dt, i) and arg_path(b, ht, i) is not None for i in range(4))
+    same = all((arg_path(b, ht, i) == arg_path(b, dt, i) and arg_path(b, ht, i) is not None) or (arg_path(b, ht, i) is None and arg_origin(b, ht, i)[0] != "unknown" and arg_origin(b, ht, i) == arg_origin(b, dt, i)) for i in range(4))
     r.add(f, "fallback scans the same (path, id, keydir, stats) the hint loader was given", same, where(b, dbb), "hint(%s) vs data(%s)" % ([arg_path(b, ht, i) for i in range(4)], [arg_path(b, dt, i) for i in range(4)]))
     site = (b.path, hbb)
 
